@@ -72,9 +72,7 @@ func init() {
 			fail("listener.go: ConnectDirectly / HandleConnection not found")
 			return
 		}
-		gNil := ifWith(cd, "forward==nil")
-		gEmpty := ifWith(cd, `forward.Host==""`, `forward.Scheme==""`, "||")
-		// the dial part is evaluated path-sensitively (x_c16_direct.go), not matched as text: returned value / PipeData ran
+		// the function is evaluated path-sensitively (x_c16_direct.go), not matched as text: returned value / PipeData ran
 		dirRet := func(dialFails, pipeFails bool) string {
 			e := &dirEval{dialFails: dialFails, pipeFails: pipeFails, isNil: map[string]bool{}}
 			r, done := e.block(cd.Body.List)
@@ -83,8 +81,22 @@ func init() {
 			}
 			return fmt.Sprintf("%s/%v", r, e.piped)
 		}
-		guard := gNil != nil && bodyHas(gNil.Body, "returnfalse") && gEmpty != nil && bodyHas(gEmpty.Body, "returnfalse") &&
-			strings.Contains(flat(cd), "net.Dial(forward.Scheme,forward.Host)") &&
+		// without a usable forward address: false is returned and nothing is dialled, however the guards are spelled
+		noFwd := func(fwdNil, hostEmpty, schemeEmpty bool) bool {
+			e := &dirEval{fwdNil: fwdNil, hostEmpty: hostEmpty, schemeEmpty: schemeEmpty, isNil: map[string]bool{}}
+			r, done := e.block(cd.Body.List)
+			return done && e.unknown == "" && r == "false" && !e.dialed && !e.piped
+		}
+		// the dial goes to the forward address: a call net.Dial*(<x>.Scheme, <x>.Host, …)
+		dialsForward := false
+		ast.Inspect(cd, func(n ast.Node) bool {
+			if c, ok := n.(*ast.CallExpr); ok && strings.HasPrefix(flat(c.Fun), "net.Dial") && len(c.Args) >= 2 &&
+				strings.HasSuffix(flat(c.Args[0]), ".Scheme") && strings.HasSuffix(flat(c.Args[1]), ".Host") {
+				dialsForward = true
+			}
+			return true
+		})
+		guard := noFwd(true, false, false) && noFwd(false, true, false) && noFwd(false, false, true) && dialsForward &&
 			dirRet(true, false) == "false/false" && dirRet(false, false) == "true/true" && dirRet(false, true) == "true/true"
 		fact("listener.go ConnectDirectly: no forward address, or one with an empty host or scheme, or a failed dial ⇒ false; a successful dial ⇒ pipe and true",
 			"c16DirectGuard", guard)
@@ -123,20 +135,47 @@ func init() {
 		fact("upstream.go open: the upstreams are tried in list order, a failing one is skipped, the first that connects is stored and nothing after it is dialled",
 			"c16OpenInListOrder", inOrder)
 
-		live := ifWith(co, "ul.connection==nil")
+		// the liveness test = the condition under which Connect opens a new physical connection.  It is RUN
+		// (x_c16_eval.go; a test moved into a helper method is followed) under four scenarios rather than
+		// matched as text: everything alive / only the connection's Closed() flag set / only the session
+		// closed / nothing stored (where calling a method of the nil connection or session would panic:
+		// those tests are not part of that scenario, so reaching them is reported).
+		coFrame := newFrame(co, true)
+		var live *ast.IfStmt
+		ast.Inspect(co.Body, func(n ast.Node) bool {
+			if is, ok := n.(*ast.IfStmt); ok && live == nil && strings.Contains(coFrame.norm(is.Body), "$.open(") {
+				live = is
+			}
+			return live == nil
+		})
 		if live == nil {
 			fail("upstream.go Connect: liveness test not found")
 			return
 		}
-		lc := flat(live.Cond)
+		reopens := func(connNil, flag, sessNil, sessClosed bool) bool {
+			at := map[string]bool{"$.connection==nil": connNil, "$.session==nil": sessNil}
+			if !connNil {
+				at["$.connection.Closed()"] = flag
+			}
+			if !sessNil {
+				at["$.session.IsClosed()"] = sessClosed
+			}
+			ev := &mEval{file: uf, recv: "Upstreams", atoms: at}
+			v := ev.cond(coFrame, live.Cond)
+			if ev.unknown != "" {
+				fail("upstream.go Connect: liveness test not understood: %s", ev.unknown)
+			}
+			return v
+		}
+		reuse := !reopens(false, false, false, false) && reopens(true, false, true, false) && reopens(true, false, false, false) && reopens(false, false, true, false)
 		fact("upstream.go Connect liveness test: the stored connection's Closed() flag (set by a local Close only)",
-			"c16LivenessChecksFlag", strings.Contains(lc, "||ul.connection.Closed()"))
+			"c16LivenessChecksFlag", reuse && reopens(false, true, false, false))
 		fact("upstream.go Connect liveness test: the session's own IsClosed()",
-			"c16LivenessChecksSession", strings.Contains(lc, "||ul.session.IsClosed()"))
-		cf := flat(co.Body)
-		iLock, iOpen, iUnlock := strings.Index(cf, "ul.mutex.Lock()"), strings.Index(cf, "ul.open("), strings.Index(cf, "ul.mutex.Unlock()")
+			"c16LivenessChecksSession", reuse && reopens(false, false, false, true))
+		cf := coFrame.norm(co.Body)
+		iLock, iOpen, iUnlock := strings.Index(cf, "$.mutex.Lock()"), strings.Index(cf, "$.open("), strings.Index(cf, "$.mutex.Unlock()")
 		fact("upstream.go Connect: open runs between mutex.Lock and mutex.Unlock, inside the liveness test",
-			"c16OpenUnderMutex", iLock >= 0 && iLock < iOpen && iOpen < iUnlock && bodyHas(live.Body, "ul.open("))
+			"c16OpenUnderMutex", iLock >= 0 && iLock < iOpen && iOpen < iUnlock && strings.Contains(coFrame.norm(live.Body), "$.open("))
 
 		// openStream: what a failing session.OpenStream / a failing protocol selection do to the stored session
 		var osErr, selErr *ast.IfStmt
@@ -171,11 +210,34 @@ func init() {
 		})
 		fact("upstream.go Connect: after a lost session the whole Connect is tried again, once", "c16RetryAfterLoss", retry)
 		di := findFunc(uf, "Upstreams", "discard")
+		// discard is RUN (x_c16_eval.go; helper methods are followed, an inverted guard with an early return
+		// is the same thing) on: the session given is the one stored (a live connection under it) / another
+		// session has been stored in the meantime / no session given.  The facts are about its effects.
 		ident, closes := false, false
-		if di != nil {
-			g := ifWith(di, "ul.session==session")
-			ident = g != nil && bodyHas(g.Body, "ul.connection=nil") && bodyHas(g.Body, "ul.session=nil")
-			closes = g != nil && bodyHas(g.Body, "streams.TryClose(ul.session)") && strings.HasPrefix(flat(di.Body), "{ul.mutex.Lock()deferul.mutex.Unlock()")
+		if di != nil && di.Body != nil {
+			run := func(given, same bool) []string {
+				ev := &mEval{file: uf, recv: "Upstreams", atoms: map[string]bool{
+					"%1==nil": !given, "$.session==%1": same, "$.session==nil": false,
+					"$.connection==nil": false, "$.connection.Closed()": false}}
+				ev.call(di, true)
+				if ev.unknown != "" {
+					fail("upstream.go discard: not understood: %s", ev.unknown)
+					return []string{"?"}
+				}
+				return ev.effects
+			}
+			hit, other, none := run(true, true), run(true, false), run(false, false)
+			touches := func(eff []string) bool {
+				for _, x := range eff {
+					if x != "$.mutex.Lock()" && x != "$.mutex.Unlock()" {
+						return true
+					}
+				}
+				return false
+			}
+			ident = hasEffect(hit, "$.connection=nil") && hasEffect(hit, "$.session=nil") && !touches(other) && !touches(none)
+			closes = hasEffect(hit, "streams.TryClose($.session)", "streams.TryClose(%1)") && hasEffect(hit, "streams.TryClose($.connection)") &&
+				underLock(hit) && underLock(other)
 		}
 		fact("upstream.go discard: only the session the caller saw fail is forgotten (not one stored in the meantime)", "c16DiscardIdentity", ident)
 		fact("upstream.go discard: the session and its connection are closed, under the mutex", "c16DiscardCloses", closes)
